@@ -70,6 +70,9 @@ UNITS = [
          note='awaiter::subscribe replaced by its contract in operational form (unit aw_subscribe) followed by the emitting thread destroying the listener'),
     unit('aw_subscribe', 'aw_subscribe', extra_defines=['CV_HAS_aw_subscribe_u 1']),
     unit('em_resume', 'em_resume'),
+    unit('em_resume_released', 'em_resume', harness='h_em_resume_released', replay=dict(src='c15_emit_in_coroutine.cpp', mode='incoro', flags=['-I', '/verif/drivers', '-g', '-fsanitize=address,undefined'], timeout=60),
+         note='emitter::await_resume under the release environment: collector call (contract, operational form) -> suspend point released (listener run at once / only queued, C05 contract of suspend_now) -> '
+              'emitting coroutine runs on -> listener runs; clause [with-that-value]; the queued case is the OPEN known finding C15-FINDING-emit-in-coroutine'),
     unit('awt_resume', 'awt_resume', uses=('user_cb',), ptypes=awt_ptypes('int'), extra_boundary=[N('int')['user_cb']], timeout=600),
     unit('awt_invoke', 'awt_invoke', ptypes=awt_ptypes('int'), extra_boundary=[N('int')['awt_resume']], extra_defines=['CV_HAS_awt_invoke_u 1'], names_opt_extra={'awt_resume_abs': N('int')['awt_resume']}),
     unit('awt_ctor', 'awt_ctor', uses=('awt_invoke',), ptypes=awt_ptypes('int', 'awt_ctor'), extra_types={'WPT': 'std::weak_ptr<cocls::signal<int>::state>'}),
@@ -111,6 +114,17 @@ def shape(nl, late, lim):
 UNITS += [shape(1, 0, 1), shape(1, 0, 2), shape(1, 0, 3), shape(2, 0, 2), shape(2, 1, 1), shape(2, 1, 3), shape(3, 0, 1), shape(3, 0, 3),
     drive('disconnected', 'one listener on an emitter whose signal was destroyed, one on a default-constructed emitter'),
 ]
+# Audit item D4: the two emissions made from INSIDE a coroutine (ready queue active), suspend points discarded.  The two property clauses the
+# unchanged library violates there are the OPEN known finding C15-FINDING-emit-in-coroutine (marker in the assertion text); everything else must hold.
+REPLAY_INCORO = dict(src='c15_emit_in_coroutine.cpp', mode='incoro', flags=['-I', '/verif/drivers', '-g', '-fsanitize=address,undefined'], timeout=60)
+def incoro(nl):
+    d = drive('incoro', '%d coroutine listener(s) that only re-await; a producer COROUTINE (started like async::detach(): runs under the ready queue) calls the collector twice with symbolic values '
+              '(rvalue then by value, or both through the lvalue overload - symbolic choice) and discards the suspend points; then destruction of every handle; single thread, no spurious CAS failure' % nl,
+              replay=REPLAY_INCORO)
+    d['name'] = 'drive_incoro_%dL' % nl
+    d['defines'] = [x for x in d['defines'] if not x.startswith('CV_FRAME_KINDS')] + ['CV_FRAME_KINDS X(1, S_c15_listener_Frame) X(2, S_c15_producer_Frame)', 'DRIVE_NLIST %d' % nl]
+    return d
+UNITS += [incoro(1), incoro(2)]
 META = dict(
     level='proof',
     level_text=('Every function of signal.h that the property speaks about is verified against a contract taken from the property statement, thread-modularly: '
@@ -131,8 +145,18 @@ META = dict(
         '"every node of the chain handed over is resumed exactly once" is verified, bounded, in specs/C02; suspend_point::suspend_now - C05; the user callback and registration function as recording '
         'stubs), clang front end, ir2c. The step from "the detached chain is handed to the walk" to "every listener that was waiting is in that chain" is the LIFO link argument (each push links '
         'to the value it replaced: clause gh_push_next == gh_push_seen; nobody but the emitting side removes nodes) - argued, and exercised by the bounded drives, not machine-checked as an unbounded lemma. '
-        'Documented preconditions written as requires: collector calls are not MT safe (one emitting thread), the previous suspend point has been released before the next collector call, '
-        'a callback awaiter is resumed only by an emission (value present) or after the state died. BOUNDED (never counted as discharged): drives with 1..3 coroutine listeners (+1 arriving '
+        'Documented preconditions written as requires: collector calls are not MT safe (one emitting thread), '
+        'a callback awaiter is resumed only by an emission (value present) or after the state died. '
+        'The clause "delivered ... with that value" is stated where the value is obtained: emitter::await_resume under the release environment (unit em_resume_released: collector call in the '
+        'operational form of its contract -> release of the returned suspend point, which runs the listener at once or - ready queue active, C05 contract of suspend_now - only queues it -> the emitting '
+        'coroutine runs on, may call the collector again and end the life of an lvalue-emitted object -> the real await_resume) must return a live object holding the value of the collector call that '
+        'released this listener.  It holds when the listener runs inside the release (plain thread, or the suspend point is co_awaited) and FAILS when the listener is only queued = the collector is called '
+        'from inside a coroutine and the suspend point is discarded (as signal.h and the README generator invite): OPEN known finding C15-FINDING-emit-in-coroutine, natively replayed by '
+        'replay/c15_emit_in_coroutine.cpp; "misses none" fails in the same situation (drives drive_incoro_*: one resumption, carrying the last value, for two emissions). Not repaired: the listeners '
+        'read state::_cur_val when they run, so a repair has to make the collector run them before it returns (changes the documented scheduling of a discarded suspend point inside a coroutine; the '
+        '"nested" queue of install_queue_and_call is the same thread_local deque, so unrelated queued coroutines would run inside the collector) or give every released listener its own copy of the value '
+        '(new per-emitter storage, copyable T, and still loses the later values) - a design decision, not a small patch. (An earlier version hid this behind a free ghost gh_prev_released, pinned only in requires.) '
+        'BOUNDED (never counted as discharged): drives drive_incoro_* (1..2 listeners, the two emissions made by a producer coroutine that discards the suspend points) and drives with 1..3 coroutine listeners (+1 arriving '
         'between the signals) + 1 connected callback (stopping after 1, 2 or never), exactly 2 emissions with symbolic values, destruction of every handle, plus awaiting a destroyed / never '
         'connected emitter; single thread, std::atomic<awaiter*> read at member-function level, no spurious CAS failure; control (number of listeners, callback limit) is concrete per unit because '
         'symbolic control makes the lowered state machines fork beyond reach (measured). The drive oracle is confirmed natively (g++, ASan/UBSan) by replay/c15_drive.cpp. '
@@ -144,7 +168,8 @@ META = dict(
                   'abstract callees recorded in ghost state (specs/C15/c15_spec.h): awaiter::resume_chain_lk, suspend_point<void>::suspend_now, user callback, registration function; awaiter::subscribe in operational contract form in unit em_suspend_xthread',
                   'bounded drives only: concrete ring model of std::deque<coroutine_handle<>> (lib/model_dq_ring.c), typed coroutine frames (lib/model_heap_frames.c), std::atomic<awaiter*> at member-function level (specs/C15/h_drive.c)'],
     assumptions=['rely/guarantee soundness: if every step of every thread conforms, every interleaving satisfies the protocol (argued, DESIGN 3.5)', 'atomic RMWs on one location are totally ordered (C++ coherence)',
-                 'collector::operator() is called by one thread at a time and only after the previous suspend point was released (documented in signal.h)',
+                 'collector::operator() is called by one thread at a time (documented in signal.h)',
+                 'unit em_resume_released: the effect of a collector call on the state is taken from the collector contracts (COLL_POST / STORED_POST / by-reference clause, enforced in units collect_*), the effect of releasing a suspend point from the contract of suspend_point::suspend_now (specs/C05)',
                  'awaiter::resume_chain_lk resumes every node of the chain it is handed exactly once (C02, bounded N)', 'T = int and void; other value types not instantiated',
-                 'bounded drives: 1..3(+1) listeners, 1 callback, 2 emissions, single thread'],
+                 'bounded drives: 1..3(+1) listeners, 1 callback, 2 emissions, single thread; emissions from a plain thread (drive_*) and from inside a coroutine running under the ready queue (drive_incoro_*: 1..2 listeners)'],
     explanation='see level_text')
